@@ -199,6 +199,16 @@ def run(ctx):
             futs.append(ex.submit(vlib.run_and_judge, ctx, subs, "Trace_Sub.cfg", "Trace_Sub.tla", "c18s-" + profile, 4, profile, 3600))
         for f in futs:
             f.result()
+    # the package builder after a refused element (caught by the caller): count and payload as before
+    zero = {"t": "Zero"}
+    bad = [{"t": "Method", "path": amlgen.chars("MTHD"), "args": 8, "ser": False, "ch": [zero]}, {"t": "Package", "ch": [zero] * 256},
+           {"t": "Path", "s": amlgen.chars(".".join(["ABCD"] * 256))}, {"t": "Arg", "n": 7}]
+    pbs = []
+    for b in bad:
+        pbs.append({"fam": "pb", "ops": [{"op": "add", "tree": zero}, {"op": "add", "tree": b}, {"op": "add", "tree": {"t": "One"}},
+                                         {"op": "add", "tree": b}, {"op": "push", "d": [7], "via": "byte"}, {"op": "add", "tree": zero}]})
+    for profile in ("release", "checked"):
+        vlib.run_and_judge(ctx, pbs, "Trace_Pb.cfg", "Trace_Pb.tla", "c18pb-" + profile, profile=profile, chunks=2)
     ctx.extra["builds"] = ["release (no overflow checks)", "checked (debug-assertions + overflow-checks)"]
     return vlib.finish(ctx, rule="every encoded count/length field with a caller-controlled source at field-maximum (accepted), "
                        "maximum+1 and far beyond: package elements, name segments, method arguments, PkgLength (pass-through; "
